@@ -121,12 +121,15 @@ fn inner_file_handler(
 }
 
 fn blacklist_check(request: &Request, state: Arc<AppState>) -> Option<Response> {
-    // Return error 403 if the address was blacklisted
-    if state
-        .config
-        .blacklist
-        .list
-        .contains(&request.address.origin_addr)
+    // Return error 403 if the address was blacklisted, whether it is the address the request originates from
+    //   or one of the addresses it passed through (the last of which is the peer actually connected to us)
+    let blacklist = &state.config.blacklist.list;
+    if blacklist.contains(&request.address.origin_addr)
+        || request
+            .address
+            .proxies
+            .iter()
+            .any(|proxy| blacklist.contains(proxy))
     {
         state.logger.warn(format!(
             "{}: Blacklisted IP attempted to request {}",
